@@ -7,8 +7,8 @@ from harness.props import c05
 
 ID = 'C06'
 MODULE = 'Gpv.Props.C06'
-MODULES = ['Gpv.Props.C06', 'Gpv.Props.C06Float', 'Gpv.Props.C06FloatVar', 'Gpv.Props.C06FloatCov', 'Gpv.Props.C06FloatVarTree']
-THEOREMS = core.theorems('C06', 'C06Float', 'C06FloatVar', 'C06FloatCov', 'C06FloatVarTree')
+MODULES = ['Gpv.Props.C06', 'Gpv.Props.C06Float', 'Gpv.Props.C06FloatVar', 'Gpv.Props.C06FloatCov', 'Gpv.Props.C06FloatVarTree', 'Gpv.Props.C06FloatCovTree']
+THEOREMS = core.theorems('C06', 'C06Float', 'C06FloatVar', 'C06FloatCov', 'C06FloatVarTree', 'C06FloatCovTree')
 RULE = ('random sequence split into 1..6 chunks (empty chunks included), one accumulator per chunk, random binary merge order, '
         'receiver and merged-in accumulator read before and after every merge; model in exact rationals vs implementation floats '
         '(rtol 1e-9); oracle = exact batch statistic of the union + "other unchanged" + counts add; plus every non-mergeable class '
@@ -20,8 +20,8 @@ PARTIAL = ['floating-point bound of the pooled MEAN merge: proved in the standar
            '_perturbed: operands carrying errors; merged_var_streams_float_error: two Welford float runs merged are within 9u*S/N + 62*N*u*M^2); whole merge trees of variance accumulators '
            '(C06FloatVarTree.var_tree_float_error(_lin): depth d, longest leaf L: 9/2*(d+1)*u*(S/N) + (62*L + 16*d*(L+d))*u*M^2 — neither the number of chunks nor N enters); '
            'one entry of the COVARIANCE merge (C06FloatCov.cov_merge_float_error: ((1+u)^4-1)*(n|ca|+m|cb|)/N + ((1+u)^8-1)*|dai||daj|nm/N^2, attained; no bound relative to the '
-           'exact entry exists — no_relative_bound; 13*u*M^2 for data within M; merged_cov_streams_float_error). Covariance merge trees and whole-matrix statements are not proved: '
-           'float_probe tests them against the exact rational statistic']
+           'exact entry exists — no_relative_bound; 13*u*M^2 for data within M; merged_cov_streams_float_error). covariance merge trees (C06FloatCovTree.cov_tree_float_error_lin: (67L+30d(L+d))*u*Mx*My) and whole matrices in the max-norm '
+           '(C05FloatMatrix) likewise. float_probe additionally tests ill-conditioned data against the exact rational statistic (a test)']
 ASSUMPTIONS = ['numpy element-wise arithmetic and broadcasting']
 
 REFUSERS = ['RunningMean', 'RunningVariance', 'RunningCovariance', 'ReservoirSampling', 'CDFEstimator',
